@@ -131,6 +131,7 @@ func (c *Ctx) Mine(i int64) bool {
 func (c *Ctx) Begin(i int64) {
 	c.cur = i
 	c.res.LastCase = i
+	c.tick(i)
 	if c.journal != nil {
 		fmt.Fprintf(c.journal, "case %d\n", i)
 	}
@@ -307,7 +308,10 @@ func RunWorker(id, tier string, seed int64, shard, shards int, only, from int64,
 		return err
 	}
 	c.journal = j
+	c.SetBudget(30 * time.Second)
+	c.startWatchdog()
 	ck.Run(c)
+	c.Idle()
 	c.res.Finished = true
 	c.res.Nontrivial = int64(len(c.hashes))
 	c.res.Sets = map[string][]string{}
@@ -568,7 +572,28 @@ func RunParent(id, tier string, seed int64, exe, raceExe string) int {
 				last, _ := lastJournalCase(filepath.Join(p.Dir, "journal-"+tag))
 				stderrTail := tail(stderrPath, 6000)
 				sig, isCrash := crashSig(head(stderrPath, 200000))
-				if timedOut {
+				if exit == ExitDeadlock {
+					v := p.confirm(id, tier, seed, last, timeout)
+					mu.Lock()
+					if v != nil && v.Sig == "deadlock" {
+						crashViol = append(crashViol, *v)
+					} else {
+						crashViol = append(crashViol, Violation{Sig: "deadlock", Case: last,
+							What: "deadlock: every goroutine of the library blocked on a channel operation (identical stacks on two samples)",
+							Detail: map[string]any{"stderr_tail": stderrTail, "reproduced": v != nil}})
+					}
+					mu.Unlock()
+				} else if exit == ExitWatchdog {
+					v := p.confirm(id, tier, seed, last, timeout)
+					mu.Lock()
+					if v != nil {
+						crashViol = append(crashViol, *v)
+					} else {
+						p.Merged.Inconclusive++
+						p.Merged.InconWhy = append(p.Merged.InconWhy, fmt.Sprintf("case %d exceeded its wall-clock budget in worker %s but finished when run alone with a 10x budget", last, tag))
+					}
+					mu.Unlock()
+				} else if timedOut {
 					mu.Lock()
 					p.Merged.Inconclusive++
 					p.Merged.InconWhy = append(p.Merged.InconWhy, fmt.Sprintf("worker %s hit the wall-clock watchdog at case %d", tag, last))
@@ -648,8 +673,11 @@ func (p *Parent) confirm(id, tier string, seed, cas int64, timeout time.Duration
 			detail["input_q:"+filepath.Base(m)] = Trunc(fmt.Sprintf("%q", b), 6000)
 		}
 	}
-	if timedOut {
-		return &Violation{Sig: "hang", Case: cas, What: "case does not return even when run alone (watchdog); goroutine dump attached", Detail: detail}
+	if exit == ExitDeadlock {
+		return &Violation{Sig: "deadlock", Case: cas, What: "deadlock (reproduced running the case alone): every goroutine of the library blocked on a channel operation, identical stacks on two samples", Detail: detail}
+	}
+	if timedOut || exit == ExitWatchdog {
+		return &Violation{Sig: "hang", Case: cas, What: "case does not return even when run alone with a 10x budget; goroutine dump attached", Detail: detail}
 	}
 	if !isCrash {
 		sig = fmt.Sprintf("exit:%d", exit)
